@@ -172,7 +172,7 @@ def readBody (t : Nat) (un : Bytes) (c : Cursor) : Out (Body × Cursor) := do
   else pure (b0, c)
 
 /-- `ICMPv6::ICMPv6(const uint8_t* buffer, uint32_t total_sz)` -/
-def parse (b : Bytes) : Out (Icmp6 × Inner) := do
+def parseHead (b : Bytes) : Out (Icmp6 × Cursor) := do
   let c := Cursor.ofBytes b
   let (t, c) ← c.readU8
   let (code, c) ← c.readU8
@@ -184,12 +184,12 @@ def parse (b : Bytes) : Out (Icmp6 × Inner) := do
       pure (os, (⟨[], 0⟩ : Cursor))          -- the loop ends only with an empty stream
     else pure ([], c)
   let (ext, c) ← if extAllowed t then tryParseExt c (byteAt un 0 * 8) ExtS.default else pure (ExtS.default, c)
-  let p : Icmp6 := ⟨t, code, cksum, un, body.target, body.dest, body.mcast, opts, sizeAfter 0 opts, body.reach,
-    body.retrans, body.records, body.mlqm, body.sources, ext, body.useMldv2⟩
-  if c.toBool then
-    let rest ← Cursor.rest "ICMPv6::ICMPv6 RawPDU" c
-    pure (p, .raw rest)
-  else pure (p, .none)
+  pure (⟨t, code, cksum, un, body.target, body.dest, body.mcast, opts, sizeAfter 0 opts, body.reach,
+    body.retrans, body.records, body.mlqm, body.sources, ext, body.useMldv2⟩, c)
+
+def parse (b : Bytes) : Out (Icmp6 × Inner) := do
+  let (p, c) ← parseHead b
+  finishRaw "ICMPv6::ICMPv6 RawPDU" p c
 
 /-! ### typed option decoders (`search_and_convert<T>`: `T::from_option` / `Internals::Converters::convert`) -/
 
@@ -413,6 +413,21 @@ def writeRecords (o : OutCursor) : List McastRec → Out OutCursor
     let o ← (⟨o.done, o'.done ++ o'.rest, o.size⟩ : OutCursor).skip r.size
     writeRecords o rs
 
+/-- the type-dependent part between the addresses and the options -/
+def writeBody (p : Icmp6) (o : OutCursor) : Out OutCursor :=
+  if p.type == 134 then do
+    let o ← o.write p.reach
+    o.write p.retrans
+  else if p.type == 143 then writeRecords o p.records
+  else if p.type == 130 then do
+    let o ← o.write p.mcast
+    if p.useMldv2 then do
+      let o ← o.write p.mlqm
+      let o ← o.writeBE 2 p.sources.length
+      McastRec.writeAddrs o p.sources
+    else pure o
+  else pure o
+
 /-- the pseudo-header sum when the parent is an IPv6 header -/
 def pseudoOf (cx : Ctx) (size : Nat) : Option Nat :=
   match cx.parents.head? with
@@ -424,28 +439,19 @@ def pseudoOf (cx : Ctx) (size : Nat) : Option Nat :=
     else none
   | none => none
 
-/-- `ICMPv6::write_serialization` -/
-def write (cx : Ctx) (p : Icmp6) (region : Bytes) : Out Bytes := do
-  let inner := Icmp4.innerOf cx.innerSize
+/-- `ICMPv6::write_serialization`, first half: everything written through the `OutputMemoryStream` -/
+def writeHead (p : Icmp6) (inner : Option Nat) (region : Bytes) : Out OutCursor := do
   let un1 := patch p.un 0 [UInt8.ofNat (p.lengthFor inner)]
   -- header_.mlrm2.record_count = Endian::host_to_be<uint16_t>(multicast_records_.size());
   let un2 := if p.type == 143 then patch un1 2 (OutCursor.beBytes 2 p.records.length) else un1
   let o ← (OutCursor.ofRegion region).write ([UInt8.ofNat p.type, UInt8.ofNat p.code, 0, 0] ++ un2)
   let o ← if hasTarget p.type then o.write p.target else pure o
   let o ← if hasDest p.type then o.write p.dest else pure o
-  let o ← if p.type == 134 then do
-      let o ← o.write p.reach
-      o.write p.retrans
-    else if p.type == 143 then writeRecords o p.records
-    else if p.type == 130 then do
-      let o ← o.write p.mcast
-      if p.useMldv2 then do
-        let o ← o.write p.mlqm
-        let o ← o.writeBE 2 p.sources.length
-        McastRec.writeAddrs o p.sources
-      else pure o
-    else pure o
-  let o ← writeOpts o p.opts
+  let o ← p.writeBody o
+  writeOpts o p.opts
+
+/-- second half: RFC 4884 padding, extension structure and the pseudo-header checksum through raw pointers -/
+def writeTail (cx : Ctx) (p : Icmp6) (inner : Option Nat) (o : OutCursor) : Out Bytes := do
   let r := o.buffer
   let r ← if p.hasExt then
       -- uint8_t* extensions_ptr = stream.pointer(); … total_sz - (extensions_ptr - stream.pointer())
@@ -456,6 +462,12 @@ def write (cx : Ctx) (p : Icmp6) (region : Bytes) : Out Bytes := do
   | some ps =>
     let sum := fold16 ((ps + sumRange r) % 4294967296)
     poke "ICMPv6::write_serialization checksum" r 2 (le16 (not16 sum % 65536))
+
+/-- `ICMPv6::write_serialization` -/
+def write (cx : Ctx) (p : Icmp6) (region : Bytes) : Out Bytes := do
+  let inner := Icmp4.innerOf cx.innerSize
+  let o ← p.writeHead inner region
+  p.writeTail cx inner o
 
 /-! ### API -/
 
